@@ -20,12 +20,21 @@ SHAPES_B = ("point", "seg", "sq", "tet", "tet2")
 
 
 def model_check(res):
-    r = tlc.run("c18", "GjkEpaMC", cfg="GjkEpa.cfg", workers=6, heap="3g", tag="gjkepa")
+    """safety that holds on every path of the GJK+EPA model (any closest-face tie-breaking): faces stay on the hull, a
+    converged run reports a supporting plane.  Two further configurations are informative: first-index tie-breaking and a
+    'corrected' vertex swap both let the polytope overflow on some scene - the design does not guarantee termination."""
+    jobs = [dict(spec_dir="c18", module="GjkEpaMC", cfg="GjkEpa_any.cfg", workers=6, heap="3g", tag="gjkepa_any"),
+            dict(spec_dir="c18", module="GjkEpaMC", cfg="GjkEpa.cfg", workers=3, heap="2g", tag="gjkepa_first"),
+            dict(spec_dir="c18", module="GjkEpaMC", cfg="GjkEpa_correctswap.cfg", workers=3, heap="2g", tag="gjkepa_swap")]
+    r, first, swap = tlc.run_many(jobs)
     res.add_tlc(r)
     if r.invariant_violated:
         res.violation("mc:GjkEpa", "ModelInvariant", f"TLC: {r.invariant_violated} violated on the GJK+EPA model", {"tlc_tail": r.out[-3000:]})
     elif not r.ok:
         res.machinery("TLC GjkEpa failed:\n" + r.out[-2000:])
+    res.add_tlc(first); res.add_tlc(swap)
+    res.coverage["epa_model_first_tie_breaking"] = "violates " + ",".join(first.invariant_violated) if first.invariant_violated else ("holds" if first.ok else "error")
+    res.coverage["epa_model_corrected_swap"] = "violates " + ",".join(swap.invariant_violated) if swap.invariant_violated else ("holds" if swap.ok else "error")
 
 
 def prim(d):
